@@ -1,7 +1,7 @@
 """C15 - a subscription delivers one correct result per source event, then closes.
 
-spec/Subscription.tla (source / forwarder / consumer / canceller), model-checked stand-alone
-(safety + liveness, intended and as-is design), bound to graphql.Subscribe by
+spec/Subscription.tla (source / forwarder / per-event executors / consumer / canceller / releaser),
+model-checked stand-alone (safety + liveness, intended and as-is designs), bound to graphql.Subscribe by
   A. MC_C15: TLC-generated scripts of environment moves, every legal behaviour per script,
      played against the real code by harness/cmd/gqlv/c15.go;
   B. Trace_C15: the event traces recorded during those plays validated against the same actions.
@@ -12,7 +12,8 @@ import os
 from props import tlc_replay, tlc_check, VERIF
 
 DEV = "D_C15_send_ignores_ctx"
-CLASSES = '{"ok", "fail", "nil"}'
+DEV_HANDOFF = "D_C15_handoff_unbuffered"
+CLASSES = '{"ok", "fail", "nil", "slow"}'
 MODES = '{"ok", "parse", "validate", "suberr"}'
 KNOWN = os.path.join(VERIF, "known_findings.json")
 
@@ -25,8 +26,13 @@ def listed_devs():
     return sorted(f["deviation"] for f in fs if f.get("property") == "C15" and f.get("status") == "known" and f.get("deviation"))
 
 
-def consts(maxev, design="intended", **kw):
-    c = {"MaxEv": maxev, "Classes": CLASSES, "Modes": MODES, "Design": '"%s"' % design}
+# Subscription.tla looks at a class only through Parks(c): for the stand-alone model one non-parking class
+# stands for all of them (quick tier); the generator and the thorough tier use all four
+CLASSES2 = '{"ok", "slow"}'
+
+
+def consts(maxev, design="intended", cap=1, classes=CLASSES, **kw):
+    c = {"MaxEv": maxev, "Classes": classes, "Modes": MODES, "Design": '"%s"' % design, "Cap": cap}
     c.update(kw)
     return c
 
@@ -34,23 +40,34 @@ def consts(maxev, design="intended", **kw):
 def stages(tier, seed):
     big = tier != "quick"
     devset = "{" + ", ".join('"%s"' % d for d in listed_devs()) + "}"
-    # measured: K=6/MaxEv=3: 27 k vectors, 9.6 k scripts; K=9/MaxEv=4: 716 k vectors, 221 k scripts
+    # measured (4 classes): K=6/MaxEv=2: 88 k states, 35 k vectors, 8.3 k scripts; K=6/MaxEv=3: 293 k states, 25 k scripts
     fam = tlc_replay(
-        "MC_C15_K9" if big else "MC_C15_K6", "MC_C15", "C15",
-        dict(spec="MCSpec", constants=consts(4 if big else 3, K=9 if big else 6), invariants=["Emit", "Theorems"]),
-        workers=8, timeout=1500 if big else 300, trace_out="c15.ndjson",
+        "MC_C15_K8" if big else "MC_C15_K6", "MC_C15", "C15",
+        dict(spec="MCSpec", constants=consts(3 if big else 2, K=8 if big else 6), invariants=["Emit", "Theorems"]),
+        workers=8, timeout=2400 if big else 300, trace_out="c15.ndjson",
         replay_args=["--known", KNOWN, "--seed", str(seed), "--reps", "1" if big else "2",
-                     "--trace-cap", "50000" if big else "5000"])
+                     "--trace-cap", "50000" if big else "3500"])
+    mcl = CLASSES if big else CLASSES2
+    # measured: MaxEv=2: 3.6 k states (2 classes) / 11.8 k (4 classes); MaxEv=3, 4 classes: 191 k states, ~2 min
     st = [
-        # the intended design satisfies safety, the action property and NoLeak (weak fairness of the
-        # forwarder only; source, consumer and canceller are unconstrained; no state constraint)
+        # the intended design (forwarder's send watches the context, hand-off capacity 1) satisfies safety
+        # incl. RestAfterCancel, the action property and NoLeak for the forwarder AND all executors (weak
+        # fairness of the forwarder and of every started executor only; source, consumer, canceller and
+        # releaser are unconstrained; no state constraint)
         tlc_check("Spec_Subscription_intended", "Subscription",
-                  dict(spec="Spec", constants=consts(4 if big else 3), invariants=["Safety"],
-                       properties=["AfterClose", "NoLeak"]), workers=8, timeout=600),
+                  dict(spec="Spec", constants=consts(3 if big else 2, classes=mcl), invariants=["Safety"],
+                       properties=["AfterClose", "NoLeak"] + (["NoLeakFwd", "NoLeakReleased"] if big else [])),
+                  workers=8 if big else 4, timeout=1200),
         # the as-is design (plain send) keeps the safety part but TLC exhibits the leak
         tlc_check("Spec_Subscription_asis", "Subscription",
-                  dict(spec="Spec", constants=consts(2, design="asis"), invariants=["Safety"],
-                       properties=["NoLeak"]), expect_violation="NoLeak", workers=8, timeout=600),
+                  dict(spec="Spec", constants=consts(2, design="asis", classes=mcl), invariants=["Safety"],
+                       properties=["NoLeak"]), expect_violation="NoLeak", workers=2, timeout=600),
+        # hand-off capacity 0 (the executor's send is a rendezvous): the functional safety part holds, but
+        # TLC exhibits the state "context cancelled, nobody can step, an executor sits in its send"
+        tlc_check("Spec_Subscription_cap0", "Subscription",
+                  dict(spec="Spec", constants=consts(2 if big else 1, cap=0, classes=mcl),
+                       invariants=["SafetyCore", "RestAfterCancel"]),
+                  expect_violation="RestAfterCancel", workers=2, timeout=600),
         fam,
         dict(kind="trace_validate", cfg="Trace_C15", module="Trace_C15", trace_file="c15.ndjson", timeout=900,
              cfgdict=dict(spec="TraceSpec", constants=consts(9, Dev=devset), invariants=["TraceInv"],
@@ -58,7 +75,14 @@ def stages(tier, seed):
     ]
     if big:
         st.insert(1, tlc_check("Spec_Subscription_reader", "Subscription",
-                               dict(spec="SpecRead", constants=consts(4), properties=["ClosesWhenRead"]),
+                               dict(spec="SpecRead", constants=consts(3), properties=["ClosesWhenRead"]),
+                               workers=8, timeout=1200))
+        # ... the liveness form of the same leak, and the functional safety part of the Cap = 0 design
+        st.insert(4, tlc_check("Spec_Subscription_cap0_live", "Subscription",
+                               dict(spec="Spec", constants=consts(2, cap=0), invariants=["SafetyCore"],
+                                    properties=["NoLeak"]), expect_violation="NoLeak", workers=4, timeout=600))
+        st.insert(5, tlc_check("Spec_Subscription_cap0_core", "Subscription",
+                               dict(spec="Spec", constants=consts(2, cap=0), invariants=["SafetyCore"]),
                                workers=8, timeout=600))
     return st
 
@@ -66,42 +90,70 @@ def stages(tier, seed):
 PROPS = {"C15": dict(
     stages=stages, level="model_checking",
     rule="(1) TLC checks Subscription.tla stand-alone over ALL interleavings of source (<= MaxEv events, every "
-         "combination of the payload classes ok / failing field resolution / nil), forwarder, consumer (prompt, slow, "
-         "stops reading) and canceller (any time, also before subscribing) for valid requests and requests failing in "
-         "parse / validate / subscribe: safety invariants, the action property AfterClose and the liveness property "
-         "NoLeak (cancelled ~> forwarder terminated) under weak fairness of the forwarder only, no state constraint; "
-         "the as-is design (plain send) must violate NoLeak. (2) MC_C15 enumerates every script of <= K environment "
-         "moves (snd:class, cls, rcv, cancel, stall; context optionally cancelled before Subscribe) and, per script, "
-         "every behaviour the specification allows (outcome of each move + goroutine observation after the environment "
-         "stopped); each script is played against the real graphql.Subscribe and the observation must equal one of them. "
-         "(3) the event traces recorded during the plays are validated by Trace_C15 (same actions, silent forwarder "
-         "steps). Non-trivial = script with >= 1 event and a cancellation",
+         "combination of the payload classes ok / failing field resolution / nil / slow = the event's resolver parks "
+         "until the environment releases it), forwarder, one EXECUTOR process per event (started by the forwarder's map "
+         "step, runs the resolvers, hands its result over through a channel of capacity Cap; the forwarder waits for the "
+         "hand-off OR the cancellation), consumer (prompt, slow, stops reading), canceller (any time, also before "
+         "subscribing and while a resolver is parked) and releaser (any time or never) for valid requests and requests "
+         "failing in parse / validate / subscribe: safety invariants (incl. RestAfterCancel: cancelled and nobody can step "
+         "=> forwarder terminated and every executor terminated or held by the environment), the action property "
+         "AfterClose and the liveness property NoLeak (cancelled ~> forwarder terminated and every executor terminated or "
+         "held) under weak fairness of the forwarder and the started executors only, no state constraint; the as-is "
+         "designs must fail: plain send violates NoLeak, Cap = 0 violates RestAfterCancel (and NoLeak, thorough tier). "
+         "(2) MC_C15 enumerates every script of <= K environment moves (snd:class, cls, rcv, cancel, stall, release; "
+         "context optionally cancelled before Subscribe) and, per script, every behaviour the specification allows "
+         "(outcome of each move + goroutine observation after the environment stopped: na / no goroutine of the "
+         "subscription left / forwarder blocked for ever / executor blocked for ever); each script is played against the "
+         "real graphql.Subscribe and the observation must equal one of them. (3) the event traces recorded during the "
+         "plays (incl. park / release observations) are validated by Trace_C15 (same actions, silent forwarder and "
+         "executor steps). Non-trivial = script with >= 1 event and a cancellation",
     assumptions=[
-        "the environment is sequential within one script: the harness issues one move at a time (the forwarder runs "
-        "concurrently); moves are synchronised by the channels themselves, never by sleeping",
-        "the forwarder goroutine is identified in the goroutine profile as 'created by graphql.ExecuteSubscription in "
-        "goroutine <the script's goroutine>'; absent = terminated, parked in `chan send` in that function while the "
-        "context is cancelled and nobody reads = blocked for ever (stable: nobody else can receive)",
+        "the environment is sequential within one script: the harness issues one move at a time (the forwarder and the "
+        "executors run concurrently); moves are synchronised by the channels themselves (a slow resolver signals its "
+        "arrival at its gate; release = opening the gate), never by sleeping",
+        "goroutines started for a subscription are identified in the goroutine profile by ancestry: created by a function "
+        "of package graphql from the script's own goroutine, from the goroutine that ran the Subscribe resolver "
+        "(forwarder) or an event resolver (executor), or from any such goroutine, transitively; a catch-all after the "
+        "last script looks at every goroutine created by the library since the baseline dump",
+        "absent from a dump = terminated. Blocked for ever = present and parked (chan send / chan receive / select / "
+        "sync wait) in the same state at the same place in every one of >= 6 dumps spread over >= 2 s, after the context "
+        "was cancelled and every resolver released; a goroutine missing from any later dump is not a leak; a reported "
+        "disagreement must additionally reproduce on an immediate re-run of the script. (The forwarder parked in a "
+        "plain `chan send` on the result channel nobody reads is stable and reported at once, as before.)",
+        "the leak observation is made only when the model asks for it: context cancelled and no resolver held by the "
+        "script (otherwise 'na'); independently, after EVERY script the harness cancels, releases every resolver, closes "
+        "the source and drains the result channel to its close, and then all goroutines of the subscription must end "
+        "(NoLeak + ClosesWhenRead with a fully co-operative environment)",
         "results are compared by shape (object carrying the event number / null+error / null / request error / "
-        "context error) and byte-wise (JSON) with graphql.Execute(selection, root = event)",
-        "an event executed after cancellation may yield the bare context error (C16 semantics)",
+        "context error) and byte-wise (JSON) with graphql.Execute(selection, root = event) (slow event: the same event "
+        "without its gate)",
+        "an event whose execution is overtaken by the cancellation yields the bare context error (C16 semantics); its "
+        "executor is not waited for and must still end by itself",
+        "the generator takes the always-enabled, environment-independent internal steps (setup, start of the executor, "
+        "resolver start, close) eagerly: same vectors as the unreduced generator (compared for K=6, MaxEv=2)",
         "a single root field is subscribed (which field is chosen when several are selected depends on Go map order; "
         "noted, not exercised)",
-        "exhaustive within K moves (6 quick / 9 thorough), MaxEv events (3 / 4), 3 payload classes, 4 request kinds",
+        "exhaustive within K moves (6 quick / 8 thorough), MaxEv events (2 / 3), 4 payload classes, 4 request kinds; "
+        "stand-alone model: MaxEv 2 / 3",
     ])}
 
 MANIFEST_TEXT = {"C15": dict(
-    text="Model checking + schedule replay + trace validation: Subscription.tla specifies source, forwarder, consumer and "
-         "canceller with one action per channel operation (unbuffered channels as rendezvous). TLC proves on the bounded "
-         "model that delivered results are the image of a prefix of the events in order, one per event, nothing lost "
-         "unless cancelled, closed only after source close / cancel / the single error result, and that after "
-         "cancellation the forwarder terminates (liveness, weak fairness); for the as-is plain send TLC produces the "
-         "leak counterexample. TLC then enumerates every script of environment moves up to K steps with every legal "
-         "behaviour; the harness plays each against the real graphql.Subscribe using the channels as synchronisation "
-         "and the goroutine profile for termination, and the recorded event traces are re-validated by TLC against the "
-         "same actions.",
-    note="Trusted: TLC, Subscription.tla, the harness' channel choreography and goroutine-profile reading. Known finding "
-         "D_C15_send_ignores_ctx (forwarder blocked in chan send for ever after cancel with a stalled consumer) is "
-         "modelled as the as-is design and credited only for exactly that observation.",
+    text="Model checking + schedule replay + trace validation: Subscription.tla specifies source, forwarder, one executor "
+         "per event, consumer, canceller and releaser with one action per channel operation (unbuffered channels as "
+         "rendezvous, the executor's hand-off channel with capacity Cap). TLC proves on the bounded model that delivered "
+         "results are the image of a prefix of the events in order, one per event, nothing lost unless cancelled, closed "
+         "only after source close / cancel / the single error result, and that after cancellation no process stays "
+         "blocked for ever: the forwarder terminates and every executor terminates once its resolver returns (safety "
+         "RestAfterCancel, liveness NoLeak, weak fairness); for the as-is plain send and for a hand-off of capacity 0 TLC "
+         "produces the leak counterexamples. TLC then enumerates every script of environment moves up to K steps "
+         "(incl. slow events, cancellation while a resolver is parked, release) with every legal behaviour; the harness "
+         "plays each against the real graphql.Subscribe using the channels and resolver gates as synchronisation and the "
+         "goroutine profile for termination of ALL goroutines started for the subscription, and the recorded event "
+         "traces are re-validated by TLC against the same actions.",
+    note="Trusted: TLC, Subscription.tla, the harness' channel choreography and goroutine-profile reading. The as-is "
+         "designs D_C15_send_ignores_ctx (forwarder blocked in chan send for ever after cancel with a stalled consumer; "
+         "fixed in the library) and D_C15_handoff_unbuffered (executor blocked in its hand-off send after the forwarder "
+         "left on ctx.Done; not a finding, the library buffers the channel) are modelled and credited only for exactly "
+         "that observation and only when listed in known_findings.json.",
     technique="TLA+ process spec (safety + liveness by TLC), TLC-enumerated schedules replayed into graphql.Subscribe, "
               "recorded traces validated by a trace spec")}
